@@ -25,13 +25,18 @@ def build(V, cfg):
     wn.add_reservoir('R', base_head=100.0)
     wn.add_junction('J1', base_demand=0.0, elevation=0.0)
     wn.add_junction('J2', base_demand=0.01, elevation=0.0)
-    wn.add_tank('T', elevation=0.0, init_level=5.0, min_level=1.0, max_level=10.0, diameter=DIAM)
+    wn.add_tank('T', elevation=cfg.get('tank_elev', 0.0), init_level=5.0, min_level=1.0, max_level=10.0, diameter=DIAM)
     wn.add_pipe('P1', 'R', 'J1', length=100.0, diameter=0.5, roughness=100.0)
     if cfg.get('tank_link', 'pipe_in') == 'pipe_in':
         wn.add_pipe('P2', 'J1', 'T', length=100.0, diameter=0.5, roughness=100.0, check_valve=bool(cfg.get('p2_cv')))      # ends in the tank
     else:
         wn.add_pipe('P2', 'T', 'J1', length=100.0, diameter=0.5, roughness=100.0)      # starts at the tank
     wn.add_pipe('P3', 'J1', 'J2', length=100.0, diameter=0.3, roughness=100.0)          # target of the user controls
+    if cfg.get('valve_target'):
+        wn.add_valve('V3', 'J1', 'J2', 0.3, 'TCV', 0.0, 10.0)                               # valve parallel to P3: target of setting / status controls
+    if cfg.get('bypass'):
+        wn.add_pipe('P5', 'J1', 'J2', length=100.0, diameter=0.3, roughness=100.0, initial_status='CLOSED')   # closed bypass around P3
+        wn.get_link('P5')._user_status = LinkStatus.Closed
     if cfg.get('second_link'):
         wn.add_pipe('P4', 'T', 'J2', length=100.0, diameter=0.3, roughness=100.0, check_valve=True)   # CV pipe out of the tank
     if cfg.get('vol_curve'):
@@ -68,7 +73,12 @@ def build(V, cfg):
         rel = {'lt': Comparison.lt, 'gt': Comparison.gt, 'le': Comparison.le, 'ge': Comparison.ge}[spec['rel']]
         cond = ValueCondition(tank, spec.get('attr', 'level'), rel, 0.0)
         cond._threshold = thr
-        ctl = Control(cond, ControlAction(p3, 'status', LinkStatus(spec['value'])), priority=ControlPriority(spec.get('priority', 3)))
+        tgt = wn.get_link(spec.get('target', 'P3'))
+        if spec.get('what', 'status') == 'setting':
+            act = ControlAction(tgt, 'setting', spec['value'])
+        else:
+            act = ControlAction(tgt, 'status', LinkStatus(spec['value']))
+        ctl = Control(cond, act, priority=ControlPriority(spec.get('priority', 3)))
         wn.add_control('u%d' % k, ctl)
         x['controls'].append(dict(spec, thr=thr))
     if cfg.get('time_control'):
